@@ -135,6 +135,7 @@ func (m *Discount) Normalize(normalizers tax.Normalizers) {
 func (m *Discount) ValidateWithContext(ctx context.Context) error {
 	return tax.ValidateStructWithContext(ctx, m,
 		validation.Field(&m.UUID),
+		validation.Field(&m.Key),
 		validation.Field(&m.Code),
 		validation.Field(&m.Base),
 		validation.Field(&m.Percent,
